@@ -8,6 +8,7 @@
   returns-clique-marginals       loopy_belief_propagation returns what clique_marginals computed from its own messages
   identity-compare               attribute / clique names are excluded from a complement by identity (`is not`) only when both names
                                  range over the same container; names from different containers must be compared by equality
+  call-local-cache               a memo table on the oracle object whose entries depend on the call's arguments is emptied by that call
   gbp-message-sets               the three message sets of the minimal region-graph propagation are instances of ONE recipe - In(x) =
                                  edges entering the sub-graph below x from outside: {(s, x) : s parent of x} + {(q, d) : d descendant of x,
                                  q parent of d, q not x, q not a descendant of x} - and must agree as such: B[r] = In(r), N[p,r] = In(p),
@@ -71,6 +72,7 @@ def run(ctx):
     check_identity_compares(ctx)
     ctx.floor('returned-table constructions', n_ret, 2)
     check_gbp_sets(ctx)
+    check_call_local_caches(ctx, [gbp, lbp, cm, repo.nfunc(RG, 'RegionGraph.hazan_peng_shashua')])
     ctx.floor('exp sites', sum(1 for o in ctx.obligations if o.rule == 'exp-normalised'), 2)
 
 
@@ -197,3 +199,59 @@ def check_gbp_sets(ctx):
     ctx.ob('gbp-message-sets', fi, Nd[4], Nd[3] != Dd[3],
            'N is built around the sending region and D around the receiving region of a message (different index positions)',
            construct='centres of N and D')
+
+
+def check_call_local_caches(ctx, funcs):
+    """a memo table kept on the oracle object (`if K not in self.X: self.X[K] = V`) whose entries depend on the arguments of the
+    call must be emptied by that call: otherwise the entries computed for the previous potentials answer for the new ones"""
+    from ..srcmodel import names_in, target_names
+    n = 0
+    for fi in funcs:
+        params = set(fi.params[1:])
+        # names that depend on the parameters (flow-insensitive closure over the assignments of the method)
+        dep = set(params)
+        changed = True
+        while changed:
+            changed = False
+            for st in ast.walk(fi.node):
+                tg, val = [], None
+                if isinstance(st, ast.Assign):
+                    tg, val = st.targets, st.value
+                elif isinstance(st, ast.AugAssign):
+                    tg, val = [st.target], st.value
+                elif isinstance(st, ast.For):
+                    tg, val = [st.target], st.iter
+                if val is None:
+                    continue
+                if names_in(val) & dep:
+                    for t in tg:
+                        base = t
+                        while isinstance(base, ast.Subscript):
+                            base = base.value
+                        for x in (target_names(base) if not isinstance(base, ast.Attribute) else []):
+                            if x not in dep:
+                                dep.add(x)
+                                changed = True
+        for g in ast.walk(fi.node):
+            if not isinstance(g, ast.If):
+                continue
+            tables = set()
+            for t in ast.walk(g.test):
+                if isinstance(t, ast.Compare) and len(t.ops) == 1 and isinstance(t.ops[0], ast.NotIn) and isinstance(t.comparators[0], ast.Attribute) \
+                        and U(t.comparators[0].value) == 'self':
+                    tables.add(t.comparators[0].attr)
+            for X in tables:
+                stores = [st for st in ast.walk(g) if isinstance(st, ast.Assign) and isinstance(st.targets[0], ast.Subscript)
+                          and U(st.targets[0].value) == 'self.' + X]
+                if not stores or not any(names_in(st.value) & dep for st in stores):
+                    continue
+                n += 1
+                ctx.analysed(fi)
+                resets = [st for st in fi.body if isinstance(st, ast.Assign) and any(U(t) == 'self.' + X for t in st.targets)
+                          and ((isinstance(st.value, ast.Dict) and not st.value.keys) or (isinstance(st.value, ast.Call) and U(st.value.func) == 'dict'))]
+                before = bool(resets) and fi.body.index(resets[0]) <= max((i for i, b in enumerate(fi.body) if g is b or g in list(ast.walk(b))), default=-1)
+                ctx.ob('call-local-cache', fi, g, before,
+                       'the table self.%s memoises values computed from the arguments of %s (`%s`); it must be emptied at the start of every '
+                       'call, otherwise a second call with other potentials reuses the messages of the first' % (X, fi.name, U(stores[0])[:70]),
+                       construct='memo table self.%s of %s' % (X, fi.name))
+    ctx.count('call-local memo tables', n)
